@@ -79,4 +79,17 @@ example : levelsV1 1 5 (leBytes 4 2 ++ encodeRuns 1 [Run.bp [1, 0, 1, 1, 0, 0, 0
 example : fixedWidth PT_INT64 0 = some 8 := by decide
 example : plainDecode PT_INT64 0 2 ([7, 300].flatMap (leBytes 8)) = some [Cell.int 7, Cell.int 300] := by decide +kernel
 
+/-- **the framing check used on every written file raises no false alarm**: a level or
+    dictionary-index stream made of well-formed runs (any mixture, any width, last group padded to 8)
+    holding at least the `n` values the page header announces is accepted by `hybridTight`, whatever
+    bytes follow it in the page (fastparquet appends 8 zero bytes to v1 pages).  A stream it rejects
+    therefore has a run whose announced payload is not all inside the page. -/
+theorem framing_check_accepts_conforming (w n : Nat) (rs : List Run) (tail : List Nat)
+    (hwf : ∀ r ∈ rs, r.wf w = true) (hn : n ≤ (rs.flatMap Run.values).length) :
+    hybridTight w n (encodeRuns w rs ++ tail) = true :=
+  hybridTight_encodeRuns w n rs tail hwf hn
+
+/-- the check is not vacuous: a group of eight 8-bit indices announced, seven stored -/
+example : hybridTight 8 7 [3, 0, 1, 2, 0, 1, 2, 0] = false := by decide
+
 end PqV.Props.C02
